@@ -383,16 +383,19 @@ Definition run (ops : list word) : option (list word) :=
 Definition slots (cs : list chain) : list tuple :=
   match expand 1 cs with Some ts => ts | None => [] end.
 
-Fixpoint main_clauses (st : state) (ops : list dop) (obs : list word) : list (Z * Z * bool) :=
+(* sync = the implementation's verdict on the loaded listener equals the reference's; when
+   it does not (clause 2 is false there) the lookups on that listener cannot be compared
+   with a reference map and clause 1 is not evaluated until the next load *)
+Fixpoint main_clauses (sync : bool) (st : state) (ops : list dop) (obs : list word) : list (Z * Z * bool) :=
   match ops, obs with
   | [], [] => []
   | OLoad hd cs :: r, [ok] :: r' =>
     match validate hd cs with
-    | Some m => (2, 1, ok =? 1) :: main_clauses (Some (m, hd)) r r'
-    | None => (2, 0, ok =? 0) :: main_clauses None r r'
+    | Some m => (2, 1, ok =? 1) :: main_clauses (ok =? 1) (Some (m, hd)) r r'
+    | None => (2, 0, ok =? 0) :: main_clauses (ok =? 0) None r r'
     end
   | OLook wc dst src port :: r, o :: r' =>
-    (1, 0, word_eqb o (look_word st wc dst src port)) :: main_clauses st r r'
+    (1, 0, negb sync || word_eqb o (look_word st wc dst src port)) :: main_clauses sync st r r'
   | _, _ => [(3, -1, false)]
   end.
 
@@ -413,7 +416,7 @@ Fixpoint lit_clauses (st : option (list tuple)) (ops : list dop) (obs : list wor
 
 Definition clauses (ops : list word) (obs : list word) : list (Z * Z * bool) :=
   match decode_ops ops with
-  | Some ds => main_clauses None ds obs ++ lit_clauses None ds obs
+  | Some ds => main_clauses true None ds obs ++ lit_clauses None ds obs
   | None => [(0, 0, false)]
   end.
 
